@@ -30,11 +30,20 @@ type c15Case struct {
 	Micro   int64    `json:"micro_ns"`
 }
 
-func genC15(r *rand.Rand) c15Case {
-	cs := c15Case{Entry: r.IntN(4), Comp: vk.Pick(r, "retry", "retry", "hedge", "none", "retry>timeout"), FailN: r.IntN(3), Cancel: vk.Pick(r, "none", "none", "parked", "delay", "racing", "racing", "after-done", "in-ondone"), Micro: int64(r.IntN(300)) * 1000}
+func genC15(r *rand.Rand) (cs c15Case) {
+	cs = c15Case{Entry: r.IntN(4), Comp: vk.Pick(r, "retry", "retry", "hedge", "none", "retry>timeout", "timeout>retry", "timeout>hedge"), FailN: r.IntN(3), Cancel: vk.Pick(r, "none", "none", "parked", "delay", "racing", "racing", "after-done", "in-ondone"), Micro: int64(r.IntN(300)) * 1000}
 	if cs.Comp == "none" && (cs.Cancel == "parked" || cs.Cancel == "delay") {
 		cs.Comp = "retry" // the ErrExecutionCanceled clause is stated for executions under a retry or hedge policy
 	}
+	// "timeout>": a never-expiring (10s) Timeout outside the retry/hedge policy; those policies then run on the Timeout's
+	// child execution
+	outer := strings.HasPrefix(cs.Comp, "timeout>")
+	cs.Comp = strings.TrimPrefix(cs.Comp, "timeout>")
+	defer func() {
+		if outer {
+			cs.Comp = "timeout>" + cs.Comp
+		}
+	}()
 	if cs.Comp == "retry>timeout" {
 		// attempt 1 is timed out by an inner Timeout, then Cancel lands in the 3s retry delay: ErrExecutionCanceled, not the
 		// stale timeout result
@@ -127,7 +136,10 @@ func c15Scenario(rep *vk.Report, idx int) {
 		return value, nil
 	}
 	var pols []failsafe.Policy[int]
-	switch cs.Comp {
+	if strings.HasPrefix(cs.Comp, "timeout>") {
+		pols = append(pols, timeout.With[int](10*time.Second))
+	}
+	switch strings.TrimPrefix(cs.Comp, "timeout>") {
 	case "retry", "retry>timeout":
 		rb := retrypolicy.Builder[int]().WithMaxRetries(3).OnRetryScheduled(func(failsafe.ExecutionScheduledEvent[int]) {
 			schedOnce.Do(func() { close(sched) })
